@@ -273,6 +273,9 @@ def x_sel(p):
     exc, codes, arr_ok = None, [], True
     try:
         arr = c.evo_make_selection_array(R, C, np.array(ids) if p.get("nd") else ids)
+        if p.get("other") is not None:
+            # a second selection of the same geometry is made before the first one is encoded (both are alive)
+            other = c.evo_make_selection_array(R, C, [wid(r, cc) for r, cc in p["other"]])
         want = np.zeros((R, C))
         # the selection array itself is part of the interface: it must mark exactly the selected wells
         marked = sorted((int(r), int(cc)) for r, cc in zip(*np.nonzero(arr)))
